@@ -103,6 +103,20 @@ def equivalence_family(tier):
     if tier == "thorough":
         fam.append(("DCMotor.ramp", _motor(["motor.ramp(1.0, 100)"]), None, 1))
         fam.append(("DCMotor.ramp_down", _motor(["motor.set_speed(0.5)", "motor.ramp(-1.0, 40)"]), None, 1))
+    # the tracked RGB colour has no getter: it is observed through the next operation that depends on it
+    for name, op in [("off_then_blink", "rgb.off()\n    rgb.blink(1, 2, 3, 1, 5)"), ("off_then_fade", "rgb.off()\n    rgb.fade(8, 8, 8, 10, 1)"),
+                     ("set_then_blink", "rgb.set_color(v // 4, 0, 9)\n    rgb.blink(1, 2, 3, 1, 5)"), ("on_then_blink", "rgb.on()\n    rgb.blink(1, 2, 3, 1, 5)"),
+                     ("blink_then_blink", "rgb.blink(9, 9, 9, 1, 5)\n    rgb.blink(1, 2, 3, 1, 5)"),
+                     ("fade_then_blink", "rgb.fade(100, 50, 0, 10, 1)\n    rgb.blink(1, 2, 3, 1, 5)")]:
+        fam.append((f"RGBLed.{name}", _rgb(op), rgb, 1))
+    # every state query stored in a variable first (the variable's inferred type must carry the value)
+    fam.append(("getter_vars/Led", HDR + "led = Led(9)\nwhile True:\n" + READ + "    led.set_brightness(v // 4)\n    st = led.get_state()\n"
+                "    br = led.get_brightness()\n    mon.write(1 if st else 0)\n    mon.write(br)\n", None, 1))
+    fam.append(("getter_vars/Servo", HDR + "servo = Servo(10)\nwhile True:\n" + READ + "    servo.write(v // 6)\n    ang = servo.read()\n"
+                "    pul = servo.read_us()\n    mon.write(ang)\n    mon.write(pul)\n    servo.write_us(pul)\n", None, 1))
+    fam.append(("getter_vars/DCMotor", HDR + "motor = DCMotor(4, 7, 11)\nwhile True:\n" + READ + "    motor.set_speed(v / 512.0 - 1.0)\n"
+                "    sp = motor.get_speed()\n    ap = motor.get_applied_speed()\n    inv = motor.is_inverted()\n"
+                "    mon.write(sp)\n    mon.write(ap)\n    mon.write(1 if inv else 0)\n", None, 1))
     # histories from the initial state (two passes): invariants really are reached
     fam.append(("history/Led", HDR + "led = Led(9)\nwhile True:\n" + READ + "    led.set_brightness(v // 4)\n    led.toggle()\n" + LED_GET, None, 2))
     fam.append(("history/RGBLed", HDR + "rgb = RGBLed(3, 5, 6)\nwhile True:\n" + READ + "    rgb.fade(v // 4, 0, 0, 20, 2)\n    rgb.blink(1, 2, 3, 1, 5)\n", None, 2))
